@@ -153,7 +153,7 @@ def factdouble(value):
     if value < 0:
         return NUM_ERROR
 
-    return np.sum(np.prod(range(int(value), 0, -2), axis=0))
+    return prod(range(int(value), 0, -2))
 
 
 @excel_math_func
